@@ -458,6 +458,20 @@ def gen_arp_nd_echo(runner, tier, seed):
     # several handled addresses, some sharing a solicited-node group / RFC 1112 group: each one is answered for
     a4, b4 = "170.153.136.119", "10.25.136.119"
     a6, b6, c6 = "2001:db8:1::aabb:ccdd", "2001:db8:2::11bb:ccdd", "2001:db8:3::1"
+    for cfg in (cfg_plain(), cfg_self()):
+        s = runner.session(cfg, "arp/nd/echo: allowed destination MACs, unspecified source self=%s" % (cfg.self_ips,))
+        fr = []
+        for m in (mac(SMAC), b"\xff" * 6, bytes.fromhex("333300000001"), mcast_mac6(S6), mcast_mac4(S4)):
+            fr.append(eth(m, CMAC, 0x86DD, ipv6(C6, S6, 58, icmp6(C6, S6, 128, 0, b"\x12\x34\0\1hello"))))
+            fr.append(eth(m, CMAC, 0x86DD, ipv6("fe80::1", "ff02::1", 58, icmp6("fe80::1", "ff02::1", 128, 0, b"\x12\x34\0\1hello"))))
+            fr.append(eth(m, CMAC, 0x86DD, ipv6(C6, solicited_node(S6), 58, nd_ns(C6, solicited_node(S6), S6, b"\x01\x01" + mac(CMAC)), hlim=255)))
+            fr.append(eth(m, CMAC, 0x0800, ipv4(C4, S4, 1, icmp_echo(1, 2, b"m"))))
+            fr.append(eth(m, CMAC, 0x0806, arp(1, CMAC, C4, "00:00:00:00:00:00", S4)))
+        # duplicate address detection: the solicitation comes from the unspecified address
+        for dst in (solicited_node(S6), S6):
+            fr.append(eth(mcast_mac6(S6) if dst != S6 else SMAC, CMAC, 0x86DD, ipv6("::", dst, 58, nd_ns("::", dst, S6), hlim=255)))
+        fr.append(eth(SMAC, CMAC, 0x86DD, ipv6("::", S6, 58, icmp6("::", S6, 128, 0, b"\0\1\0\1dad"))))
+        s.send(fr)
     for sl in ([a4, b4, a6, b6, c6], [b6, a6], [c6, b6, a6, b4, a4]):
         s = runner.session(Config(SMAC, sl, None, KEYS[0], "none", 0), "arp/nd/echo several self addresses")
         fr = []
@@ -606,6 +620,17 @@ def gen_syn(runner, tier, seed):
             for (x, y, p, q) in variants:
                 fr.append(Peer(CMAC, SMAC, x, y).tcp(p, q, r.randrange(1 << 32), 0, F_SYN))
         s.send(fr)
+    # the key has two halves: three keys that share the first half, three that share the second
+    k0, k1 = KEYS[1]
+    for name, keys in (("second", [(k0, k1), (k0, k1 ^ 1), (k0, 0)]), ("first", [(k0, k1), (k0 ^ (1 << 63), k1), (0xffffffffffffffff, k1)])):
+        s = None
+        for key in keys:
+            cfgk = Config(SMAC, None, None, key, "none", 0)
+            if s is None:
+                s = runner.session(cfgk, "cookie under keys differing in their %s half only" % name)
+            else:
+                s.reconfigure(cfgk)
+            s.send([Peer(CMAC, SMAC, x, y).tcp(p, q, 7, 0, F_SYN) for variants in base[:6] for (x, y, p, q) in variants[:1]])
 
 
 # ------------------------------------------------------------------ C20
@@ -1029,10 +1054,13 @@ def send_payloads(runner, label, payloads, r, tier, cfg=None, tcp=True, udp=True
             fr.append(l3_variant(p4.udp(r.randrange(65536), r.randrange(65536), pl), len(fr)))
             if v6:
                 fr.append(l3_variant(p6.udp(r.randrange(65536), r.randrange(65536), pl), len(fr)))
-        s.send(fr)
+        for ch in chunks(fr, 3000):          # resets are cut points for the parallel validation (and TLC follows
+            s.send(ch)                       # a single behaviour for at most 65535 states)
+            s.reset()
     if tcp:
         port = [1024]
         for ch in chunks(payloads, 400):
+            s.reset()
             flows = []
             for pl in ch:
                 port[0] += 1
@@ -1330,10 +1358,11 @@ def gen_rpc(runner, tier, seed):
     flows = []
     for i in range(20 if tier == "quick" else 300):
         segs = []
-        for k in range(r.choice([2, 2, 3, 4])):
-            v, pr = r.choice([(2, 3), (4, 0), (3, 4), (2, 4), (9, 1), (2, 77), (4, 3)])
+        for k in range(r.choice([2, 3, 3, 4, 5])):
+            v, pr = r.choice([(2, 3), (4, 0), (3, 4), (2, 4), (9, 1), (2, 77), (4, 3), (2, 0x103), (3, 0x104), (4, 0x10003), (2, 0xffffff04), (2, 0x100)])
             prog = r.choice([100000, 100000, 100003])
-            q = rpc_call(xid(), prog, v, pr, args=struct.pack(">IIII", 100003, 3, 6, 0) if pr == 3 else b"", tcp=True)
+            q = rpc_call(xid(), prog, v, pr, args=struct.pack(">IIII", 100003, 3, 6, 0) if pr & 0xff == 3 else b"",
+                         cred=r.choice([b"", b"", rb(r, 20), rb(r, 8)]), cred_flavor=r.choice([0, 1]), tcp=True)
             if k and r.random() < 0.2:
                 q = rpc_call(xid(), mtype=1, tcp=True)                      # a reply message where a call is expected
             if r.random() < 0.3:
@@ -1390,6 +1419,7 @@ def gen_smb(runner, tier, seed):
         h2 = dict(message_id=r.randrange(1 << 62), async_id=r.randrange(1 << 62), session_id=r.randrange(1 << 62), flags=r.choice([0, 0, 0, 8, 0x10, r.choice([1, 3, 9, 0x11, 0x30000001, 0xffffffff])]))
         pl.append(smb2_negotiate(d2, **h2))
         pl.append(smb2_session_setup(blob=rb(r, r.choice([1, 2, 40, 74, 255, 300])), **h2))
+        pl.append(smb2_session_setup(blob=rb(r, 40), prev=r.randrange(1, 1 << 62), message_id=h2["message_id"], session_id=r.choice([0, 0, h2["session_id"]])))
     pl += [smb2_negotiate([0x1234, 0x0000]), smb2_negotiate([0xffff]), smb2_negotiate([0x0202], count=0), smb2_negotiate([0x0202, 0x0210], count=1),
            smb2_negotiate([0x0202], count=2), smb1_negotiate([b"NT LM 0.12"], byte_count=3), smb1_negotiate([b"NT LM 0.12"], byte_count=200),
            smb1_negotiate([]), smb1_session_setup(blob=b""), smb2_session_setup(blob=b"")]
